@@ -11,7 +11,7 @@ K      : … and the driver op `profile k x` (Model/Profiles.lean, the expressio
          abel.tools.transform_pairs.profile<k> at random and special radii (breakpoints, the TransformPair end offsets)
 S      : scipy line-of-sight quadrature of `func` vs `abel` for every class: Step, Gaussian, Polynomial wrappers,
          TransformPair profiles 1-7 at many r, SampleImage names x sizes x sigma / temperature / tolerance; grid facts
-         (r symmetric, dr, quadrant layout)
+         (r symmetric, dr, quadrant layout); tolerances below the documented table (1e-7, 3e-8) against quadrature
 """
 import json
 
